@@ -191,7 +191,7 @@ pub fn c09_check(case: &Case, cache: Option<&FreshCache>) -> Verdict {
     }
     let r = match cache {
         Some(c) => c.get(case, &b.model, 3),
-        None => crate::check::compute_fresh(case, &b.model, 3),
+        None => crate::check::compute_fresh(case, &b.model, 1),
     };
     if !r.stable {
         v.unstable = true;
@@ -291,7 +291,7 @@ pub fn c10_check(case: &Case, cache: Option<&FreshCache>) -> Verdict {
     // (iii) equals a fresh analysis of the remaining files
     let r = match cache {
         Some(c) => c.get(case, &b.model, 3),
-        None => compute_fresh(case, &b.model, 3),
+        None => compute_fresh(case, &b.model, 1),
     };
     if !r.stable {
         v.unstable = true;
